@@ -73,15 +73,15 @@ def _alarm(*a):
     raise _TO()
 
 
-def timed_parse(text, hard=HARD):
+def timed_parse(text, hard=HARD, config=None):
     """CPU seconds (not wall clock: other processes sharing the machine must not turn a one-second parse into an alarm) that
-    PLSSDesc(text, parse_qq=True) takes, cut off after `hard` CPU seconds"""
+    PLSSDesc(text, parse_qq=True) takes (under the given config string), cut off after `hard` CPU seconds"""
     import pytrs
     signal.signal(signal.SIGVTALRM, _alarm)
     signal.setitimer(signal.ITIMER_VIRTUAL, hard)
     t0 = time.process_time()
     try:
-        pytrs.PLSSDesc(text, parse_qq=True)
+        pytrs.PLSSDesc(text, parse_qq=True, config=config)
         return time.process_time() - t0
     except _TO:
         return hard
@@ -173,6 +173,7 @@ def structural(k):
 
 
 STRUCTURAL_KNOWN = {'range_product': 'C16-range-product'}
+STRUCTURAL_CONFIGS = ['ocr_scrub', 'segment', 'clean_qq', 'sec_within', 'sec_colon_cautious', 'ocr_scrub,segment,clean_qq', 's,e']
 
 
 def units_from_patterns(rng):
@@ -331,6 +332,22 @@ def run(ctx):
                                                     'why': 'structural repetition: time exceeds 2 s and grows super-linearly'},
                                   tag=STRUCTURAL_KNOWN.get(name))
     rep.sample({'structural': 'k lines each repeating a Twp/Rge; k sections; k lots'}, cap=3)
+    # the same structural families under every non-default setting that changes what the preprocessor / parser does
+    # ("whatever it contains" is not limited to the default configuration)
+    for cfg in STRUCTURAL_CONFIGS:
+        for k in ([12, 24] if not ctx.thorough else [6, 12, 24, 36]):
+            for name, text in structural(k):
+                if len(text) > LIMIT + 60 or name in STRUCTURAL_KNOWN:
+                    continue
+                t = timed_parse(text, hard=12.0, config=cfg)
+                rep.count()
+                rep.nontrivial((name, k, cfg))
+                if t > SLOW:
+                    t2 = timed_parse(dict(structural(max(2, k // 2)))[name], hard=12.0, config=cfg)
+                    if t > 3 * max(t2, 1e-3):
+                        rep.violation('failing-input', {'text': text[:400], 'length': len(text), 'config': cfg, 'family': ['structural', name, k],
+                                                        'seconds': round(t, 2), 'seconds_at_half_size': round(t2, 2),
+                                                        'why': f'structural repetition under config {cfg!r}: time exceeds 2 s and grows super-linearly'})
     # an ordinary description stays fast in a process that has parsed a batch of other descriptions before (all settings in turn)
     with mp.Pool(1) as pool:
         aged = pool.apply(aged_process_times, (40 if not ctx.thorough else 120,))
@@ -355,5 +372,5 @@ def run(ctx):
 def replay(payload):
     p = payload.get('replay', {})
     if 'text' in p:
-        return timed_parse(p['text']) <= SLOW
+        return timed_parse(p['text'], config=p.get('config')) <= SLOW
     return True
